@@ -216,11 +216,11 @@ def run_history(ctx, walks, files, tmp, xdir, nsample, rng):
                 pp = ParameterParser()
                 pp.read(paths[fid])
                 d.append(observed_call(pp, m)[0])
-            if d[0] != d[1]:
+            if d[0] != d[1] and not ctx.has_violations():
                 raise Machinery('history: two fresh parsers of file %d disagree on %s' % (fid, m))
             fresh[(fid, m)] = d[0]
     nexc = sum(1 for d in fresh.values() if d.startswith('EXC:'))
-    if nexc * 4 > len(fresh):
+    if nexc * 4 > len(fresh) and not ctx.has_violations():
         raise Machinery('history: %d of %d reference calls raise: the comparison is vacuous (%s)' % (
             nexc, len(fresh), sorted({d[:80] for d in fresh.values() if d.startswith('EXC:')})[:3]))
     # the sample: every walk in which a method is called twice in a row, or called after another file was read, plus random ones
@@ -311,7 +311,7 @@ def run_sections(ctx, asms, tmp, xdir, classes, files, asm_par, asm_library, typ
     from taurex.parameter import ParameterParser
     install_recorders()
     par = os.path.join(tmp, 'sect.par')
-    n = 0
+    n = nlibfail = 0
     for a in asms:
         absent = sorted(a['absent'])
         cls = 'sect:%s:no[%s]:mk[%s]' % (a['model'], ','.join(absent), ','.join(sorted(a['mkeys'])))
@@ -330,8 +330,13 @@ def run_sections(ctx, asms, tmp, xdir, classes, files, asm_par, asm_library, typ
             lib = asm_library(a, classes, files, build=False)
             libdig = digest(lib)
         except BaseException as ex:
-            raise Machinery('presence of sections: the library construction of %s failed: %s: %s' % (cls, type(ex).__name__, ex))
+            libdig = 'EXC:%s: %s' % (type(ex).__name__, str(ex)[:120])
         n += 1
+        if libdig.startswith('EXC:'):       # the components cannot be built through the library either: nothing to compare with
+            nlibfail += 1
+            if not dig.startswith('EXC:'):
+                ctx.verdict('FileEqualsLibrary', False, cls=cls, detail='the input file builds a model, the same components through the library raise %s' % libdig[4:], vector=vec)
+            continue
         if dig.startswith('EXC:'):
             ctx.verdict('WellFormedFileBuilds', False, cls=cls, detail='sections %s are left out (inputfile.rst: not all headers are required): the library builds the '
                         'model from the remaining components, the input file raised %s' % (absent, dig[4:]), vector=vec)
@@ -347,6 +352,8 @@ def run_sections(ctx, asms, tmp, xdir, classes, files, asm_par, asm_library, typ
             a['cls']['model'], {k: e['raw'] for k, e in a['mkeys'].items()}, _first_diff(dig, libdig)), vector=vec)
     if os.path.exists(par):
         os.unlink(par)
+    if n and nlibfail * 2 > n and not ctx.has_violations():
+        raise Machinery('presence of sections: the library construction fails for %d of %d files: the comparison is vacuous' % (nlibfail, n))
     ctx.traces += n
     return n
 
